@@ -259,3 +259,54 @@ func BenchmarkSteps(b *testing.B) {
 		Finish()
 	})
 }
+
+// A waiter released by the counter reaching zero that finds the counter raised
+// again before it ran dies like the real one ("reused before previous Wait has
+// returned"); some seed must find that order, and no seed may find it when the
+// second Add waits for the first Wait.
+func TestWaitGroupReuseIsCrash(t *testing.T) {
+	crashed := 0
+	for seed := uint64(1); seed <= 40; seed++ {
+		s := New(Options{Seed: seed})
+		res := s.Run(func() {
+			var wg WaitGroup
+			wg.Add(1)
+			n := 0
+			GoHarness("waiter", func() { wg.Wait(); n++ })
+			GoHarness("worker", func() {
+				wg.Done()
+				wg.Add(1) // reuse without waiting for the waiter
+				wg.Done()
+				n++
+			})
+			Block(func() bool { return n == 2 })
+			Finish()
+		})
+		if res.Verdict == VCrash {
+			crashed++
+		}
+	}
+	if crashed == 0 {
+		t.Fatalf("no schedule in 40 reached the reuse panic")
+	}
+	for seed := uint64(1); seed <= 40; seed++ {
+		s := New(Options{Seed: seed})
+		res := s.Run(func() {
+			var wg WaitGroup
+			wg.Add(1)
+			waited := false
+			GoHarness("waiter", func() { wg.Wait(); waited = true })
+			GoHarness("worker", func() {
+				wg.Done()
+				Block(func() bool { return waited })
+				wg.Add(1)
+				wg.Done()
+			})
+			Block(func() bool { return waited })
+			Finish()
+		})
+		if res.Verdict == VCrash {
+			t.Fatalf("seed %d: proper reuse reported as a crash", seed)
+		}
+	}
+}
